@@ -485,7 +485,7 @@ pub fn dispatch(
             continue;
         }
         if let Some(b) = e.matches(&segs) {
-            served.insert(e.method.clone());
+            served.insert(e.method.to_ascii_uppercase());
             if e.method == method {
                 hits.push((i, b));
             }
